@@ -75,7 +75,8 @@ def corpus_fstrings(cap_files: int) -> list[dict]:
 
 def cases_for_c04(run: Run, tier: str) -> list[dict]:
     cs = generate(run, "quick")
-    return [{"src": c["src"], "mode": "eval", "origin": "c10"} for c in cs[:: (5 if tier == "quick" else 1)]]
+    keep = [c for i, c in enumerate(cs) if tier != "quick" or i % 5 == 0 or ("\n" in c["src"] and i % 2 == 0)]
+    return [{"src": c["src"], "mode": "eval", "origin": "c10"} for c in keep]
 
 
 def cases_for(run: Run, tier: str) -> list[dict]:
